@@ -34,6 +34,10 @@ CHECKS = {
   technique='property-based testing (Hypothesis): validity predicates over per-layer opacities (opaque at/below cloud top, untouched above, zero outside the haze window, declared magnitude and wavelength law inside) plus differential against the cloud-free model and the reference transit integral',
   text='Generated transmission worlds with a cloud deck / grey haze / parameterised haze whose bounds are placed inside, beyond either end, below 1 Pa, unset or inverted, and cloud tops exactly on a layer pressure; exploration level.',
   note='Haze window = [min,max] of the declared bounds with unset bounds replaced by the atmosphere ends; grey-haze magnitude judged on layers wholly inside (or the largest overlap); emission geometry not judged.'),
+ 'C20': dict(
+  technique='property-based testing (Hypothesis): differential between opacity modes (k-table built by repeating the cross-section table vs cross-section mode on freshly built worlds) and Jensen-inequality / unit-interval validity predicates for non-degenerate k-distributions',
+  text='Generated worlds, quadrature weights (1-20 points) and per-point factors; transmission, emission (1-6 Gauss points) and direct-image spectra in k-table mode are compared with cross-section mode on equivalent data; for general factors the layer transmittance must lie in [0,1] and not fall below the transmittance from the weight-averaged coefficient; exploration level.',
+  note='In-memory KTable subclasses (file readers in C14); emission comparison carries the licensed e^-10 relative slack; Jensen clause skips layers already saturated in the cross-section run.'),
 }
 
 NOT_APPLICABLE = {}
